@@ -54,4 +54,40 @@ Proof.
   - auto.
 Qed.
 
+(* actions never write to the store themselves: only the engine persists *)
+Definition not_persist_eff (e : effect) : Prop := match e with EPersist _ _ _ => False | _ => True end.
+
+Lemma pay_loop_not_persist n : forall csvh pol payreq d w r w' es,
+  pay_loop n csvh pol payreq d w = (r, w', es) -> Forall not_persist_eff es.
+Proof.
+  induction n as [|n IH]; intros csvh pol payreq d w r w' es H.
+  - rewrite pay_loop_O in H. msym. constructor.
+  - rewrite pay_loop_S in H. msym; list_simpl; repeat constructor.
+    eapply IH; eauto.
+Qed.
+
+Lemma leaf_not_persist name f : In (name, f) (leaf_actions tc dec) ->
+  forall d w r w' es, f d w = (r, w', es) -> Forall not_persist_eff es.
+Proof.
+  intros Hin d w r w' es H. leaf_cases Hin.
+  all: autounfold with actions in H; msym; list_simpl.
+  all: try (repeat constructor; fail).
+  all: constructor; [exact Logic.I|]; eapply pay_loop_not_persist; eauto.
+Qed.
+
+Theorem exec_not_persist fuel a d w r w' es :
+  exec tc dec fuel a d w = (r, w', es) -> Forall not_persist_eff es.
+Proof.
+  apply (exec_rule tc dec (fun _ _ es => Forall not_persist_eff es)).
+  - intros. eapply leaf_not_persist; eauto.
+  - constructor.
+  - intros. repeat constructor.
+  - constructor.
+  - auto.
+  - intros d0 r0 es0 H. constructor; [exact Logic.I|exact H].
+  - constructor.
+  - auto.
+  - intros d0 r0 es0 H. constructor; [exact Logic.I|exact H].
+Qed.
+
 End Frame.
